@@ -690,3 +690,7 @@ def selftest():
 
 SUBCHECKS = [Sub('C03.' + fam, run, strategy=single_case(names), examples={'quick': 5000, 'thorough': 80000}) for fam, names in FAMILIES.items()]
 SUBCHECKS.append(Sub('C03.sequence', run, strategy=seq_case, examples={'quick': 4000, 'thorough': 50000}))
+
+for _s in SUBCHECKS:
+    if _s.name in ['C03.sequence']:
+        _s.fuzz = True
